@@ -42,7 +42,7 @@ TIERS = {
 }
 
 OBSERVE_OPS = ["touch", "contains", "keys", "glyphorder", "glyphset", "bestcmap", "tabledata", "save", "savexml", "deepcopy", "revmap", "ensure_table"]
-EDIT_OPS = ["name", "rev", "os2", "os2stale", "hmtx", "vmtx", "headflags", "cmap", "glyfshift", "compbase", "cffshift", "flavordata", "deltable", "opaque", "reorder", "scale", "subset", "instantiate", "cffwidth", "gposvalue"]
+EDIT_OPS = ["name", "rev", "os2", "os2stale", "uvs", "hmtx", "vmtx", "headflags", "cmap", "glyfshift", "compbase", "cffshift", "flavordata", "deltable", "opaque", "reorder", "scale", "subset", "instantiate", "cffwidth", "gposvalue"]
 BIG_EDITS = ("reorder", "scale", "subset", "instantiate")
 
 
@@ -601,6 +601,31 @@ def apply_edit(font, name, a):
             pd = c.private
             if hasattr(c, "width") and pd is not None:
                 c.width = pd.nominalWidthX + 1 + (k % 50)
+        return font
+    if name == "uvs":
+        # Unicode variation sequences appended out of code-point order (a format 14 subtable is added when the
+        # font has none): how an editor appends, not how a compiler sorts
+        if "cmap" in font:
+            from fontTools.ttLib.tables._c_m_a_p import CmapSubtable
+
+            go = font.getGlyphOrder()
+            st14 = [t for t in font["cmap"].tables if t.format == 14]
+            if st14:
+                st = st14[0]
+            else:
+                st = CmapSubtable.newSubtable(14)
+                st.platformID, st.platEncID, st.language = 0, 5, 0
+                st.cmap = {}
+                st.uvsDict = {}
+                font["cmap"].tables.append(st)
+                font["cmap"].tables.sort()  # encoding records in their required order
+            sel = (0xFE00, 0xFE01, 0xE0100)[k % 3]
+            lst = st.uvsDict.setdefault(sel, [])
+            have = {u for u, _ in lst}
+            for uv in (0x4E10 + k % 16, 0x4E02 + k % 8, 0x3400 + k % 5):
+                if uv not in have:
+                    lst.append((uv, _sel(go[1:] or go, k + uv)))
+                    have.add(uv)
         return font
     if name == "os2stale":
         # values the dump itself announces as "will be recalculated by the compiler": a caller may leave
